@@ -59,6 +59,7 @@ impl Domain for SeqDomain {
             verdict,
             nontrivial: (self.nontrivial)(&run, &case),
             classes,
+            excluded: vec![],
         }
     }
 }
